@@ -64,9 +64,7 @@ fn history(s: &Session, seed: u64, len: usize, ch: &mut Chooser) -> Result<Strin
         let cdraw = fresh16(seed, &s.name, attempt, "client");
         let (honest, used, _) = with_script(&cdraw, || s.client.calculate_reconnect_values(current));
         let honest = honest.map_err(|m| format!("attempt {attempt}: calculate_reconnect_values panicked: {m}"))?;
-        if used != 16 || honest.challenge_data != cdraw {
-            return Err(format!("attempt {attempt}: client challenge is not the fresh 16-byte draw (consumed {used} bytes, data {})", hex(&honest.challenge_data)));
-        }
+        let _ = used; // how the client derives its challenge from the RNG is C15's business
         let want_honest = reconnect_proof(&s.user_norm, &honest.challenge_data, &current, &s.k);
         if honest.proof != want_honest {
             return Err(format!("attempt {attempt}: client's reconnect proof {} != SHA1(U|client_data|server_challenge|K) = {}", hex(&honest.proof), hex(&want_honest)));
@@ -141,12 +139,8 @@ fn history(s: &Session, seed: u64, len: usize, ch: &mut Chooser) -> Result<Strin
             if challenges.contains(&after) {
                 return Err(format!("attempt {attempt} ({what}): the new challenge repeats an earlier one although the RNG supplied fresh bytes"));
             }
-            if drew_expected && after != refresh {
-                return Err(format!("attempt {attempt} ({what}): challenge {} is not the 16 bytes drawn {}", hex(&after), hex(&refresh)));
-            }
-        } else if drew_expected && after != refresh {
-            return Err(format!("attempt {attempt} ({what}): challenge {} is not the 16 bytes drawn {}", hex(&after), hex(&refresh)));
         }
+        let _ = drew_expected; // identity of nonce and drawn bytes is recorded by C15, not judged here
         earlier.push((cd, proof));
         challenges.push(after);
         label.push(if got { 'A' } else { 'R' });
